@@ -5,6 +5,7 @@
 // the same crashing prefix), everything after it is executed.
 #pragma once
 #include "C09_optrun.h"
+#include "C09_optexplore_decl.h"
 
 namespace c09 {
 
@@ -19,14 +20,6 @@ inline long long pw(int level)  // weight of the ordinal chosen at `level` (1-ba
   return p;
 }
 
-struct PayloadEntry
-{
-  const char *name;
-  void (*explore)(int depth, int ls);
-  int (*replay)(const std::vector<Op> &);
-  void (*statics)();
-};
-
 template <typename P, bool OFFSET>
 struct Explorer
 {
@@ -34,6 +27,23 @@ struct Explorer
   int depth = 0;
   long long resume = -1;
   std::vector<Op> hist;
+  int root_only = -1;  // phase 1: only this child of the root
+  const std::vector<std::pair<std::vector<Op>, long long>> *pre = nullptr;
+  char *okflags = nullptr;
+
+  void mark_sound(long long idx)
+  {
+    size_t lo = 0, hi = pre->size();
+    while (lo < hi) {
+      size_t mid = (lo + hi) / 2;
+      if ((*pre)[mid].second < idx)
+        lo = mid + 1;
+      else
+        hi = mid;
+    }
+    if (lo < pre->size() && (*pre)[lo].second == idx)
+      okflags[lo] = 1;
+  }
 
   static std::string pname()
   {
@@ -45,7 +55,10 @@ struct Explorer
     const Op &last = hist.back();
     std::string cls = op_class(before, last);
     std::string replay = hist_text(pname(), hist);
-    vr::begin_case(idx, R.tag() + "|" + cls, replay);
+    // When the wrapper's alignment is statically too small every access in the {char, Optional}
+    // holder is misaligned: one class for all those sanitizer aborts instead of one per operation.
+    const bool under = OFFSET && alignof(typename Exec<P, OFFSET>::Opt) < alignof(typename P::T);
+    vr::begin_case(idx, R.tag() + "|" + (under ? std::string("payload accessed in under-aligned storage") : cls), replay);
     Result r = R.run(hist, false);
     if (count) {
       vr::stat("states");
@@ -71,6 +84,8 @@ struct Explorer
     const long long w = pw(level + 1);
     for (size_t c = 0; c < ops.size(); c++) {
       const long long idx = base + (long long)(c + 1) * w;
+      if (level == 0 && root_only >= 0 && (int)c != root_only)
+        continue;
       if (resume >= idx + w)
         continue;  // finished before the restart
       hist.push_back(ops[c]);
@@ -79,6 +94,8 @@ struct Explorer
         ok = resume != idx;  // == : this is the history that crashed; > : it was fine, go on below it
       else
         ok = exec_case(idx, m, true);
+      if (ok && !is_observer(ops[c]) && okflags && level + 1 == depth)
+        mark_sound(idx);
       if (ok && !is_observer(ops[c])) {
         Model m2 = m;
         model_apply(m2, ops[c]);
@@ -108,42 +125,54 @@ struct Explorer
     }
   }
 
+  // Phase 1: every history of length <= ls (sharded by first operation); it records which
+  // mutator histories of length exactly ls are sound.  Phase 2: one shard per sound prefix
+  // explores everything below it.  Prefixes that failed or crashed have no subtree.
   static void explore(int depth, int ls)
   {
     if (ls >= depth)
       ls = depth - 1;
     std::vector<std::pair<std::vector<Op>, long long>> pre;
+    std::vector<Op> first;
     {
       Explorer e;
       e.prefixes(Model(), 0, 0, ls, pre);
+      enabled_ops(Model(), true, first);
     }
-    const int nshards = 1 + (int)pre.size();
-    vr::stat("shards", nshards);
-    vr::run_sharded(nshards, [&](int shard, long long resume_after) {
+    char *okflags = (char *)mmap(nullptr, pre.size() + 1, PROT_READ | PROT_WRITE, MAP_SHARED | MAP_ANONYMOUS, -1, 0);
+    memset(okflags, 0, pre.size() + 1);
+    vr::run_sharded((int)first.size(), [&](int shard, long long resume_after) {
       partial_enter(shard);
+      Explorer e;
+      e.resume = resume_after;
+      e.depth = ls;
+      e.root_only = shard;
+      e.pre = &pre;
+      e.okflags = okflags;
+      e.dfs(Model(), 0, 0);
+    });
+    std::vector<int> sound;
+    for (size_t i = 0; i < pre.size(); i++)
+      if (okflags[i])
+        sound.push_back((int)i);
+    munmap(okflags, pre.size() + 1);
+    vr::stat("shards", (long long)first.size() + (long long)sound.size());
+    vr::stat("prefixes_sound", (long long)sound.size());
+    vr::stat("prefixes_pruned", (long long)(pre.size() - sound.size()));
+    vr::run_sharded((int)sound.size(), [&](int shard, long long resume_after) {
+      partial_enter(1000 + shard);
       if (vr::deadline_passed()) {
-        vr::capped(pname() + ": deadline passed before shard " + std::to_string(shard));
+        vr::capped(pname() + ": deadline passed before prefix shard " + std::to_string(shard));
         return;
       }
       Explorer e;
       e.resume = resume_after;
-      if (shard == 0) {  // every history shorter than or as long as the shard prefix
-        e.depth = ls;
-        e.dfs(Model(), 0, 0);
-        return;
-      }
       e.depth = depth;
-      e.hist = pre[shard - 1].first;
-      const long long idx = pre[shard - 1].second;
-      Model m, before;
-      for (size_t i = 0; i < e.hist.size(); i++) {
-        before = m;
+      e.hist = pre[sound[shard]].first;
+      Model m;
+      for (size_t i = 0; i < e.hist.size(); i++)
         model_apply(m, e.hist[i]);
-      }
-      // the prefix itself was counted by shard 0; here it only decides whether its subtree exists
-      bool ok = resume_after >= idx ? resume_after != idx : e.exec_case(idx, before, false);
-      if (ok)
-        e.dfs(m, ls, idx);
+      e.dfs(m, ls, pre[sound[shard]].second);
     });
   }
 
